@@ -607,7 +607,7 @@ func (d *DistKeyGenerator) ProcessResponses(bundles []*ResponseBundle) (
 		}
 	}()
 
-	if !d.c.FastSync && len(bundles) == 0 && d.canReceive && d.statuses.CompleteSuccess() {
+	if !d.c.FastSync && len(bundles) == 0 && d.canReceive && d.completeSuccess() {
 		// if we are not in fastsync, we expect only complaints
 		// if there is no complaints all is good
 		res, err = d.computeResult()
@@ -686,7 +686,7 @@ func (d *DistKeyGenerator) ProcessResponses(bundles []*ResponseBundle) (
 	// there is no complaint in the responses received and the status matrix
 	// is all filled with success that means we can finish the protocol -
 	// regardless of the mode chosen (fast sync or not).
-	if !foundComplaint && d.statuses.CompleteSuccess() {
+	if !foundComplaint && d.completeSuccess() {
 		d.c.Info("msg", "DKG successful")
 		d.state = FinishPhase
 		if d.canReceive {
@@ -890,6 +890,23 @@ func (d *DistKeyGenerator) ProcessJustifications(bundles []*JustificationBundle)
 
 	// otherwise it's all good - let's compute the result
 	return d.computeResult()
+}
+
+// completeSuccess returns true if there is no complaint left against any
+// dealer that is not evicted. The row of an evicted dealer is not looked at:
+// no response is sent about such a dealer, so the status this node holds for
+// it is not known to the other nodes, and the dealer is excluded from the
+// result in any case.
+func (d *DistKeyGenerator) completeSuccess() bool {
+	for _, n := range d.c.OldNodes {
+		if slices.Contains(d.evicted, n.Index) {
+			continue
+		}
+		if !d.statuses.AllTrue(n.Index) {
+			return false
+		}
+	}
+	return true
 }
 
 func (d *DistKeyGenerator) computeResult() (*Result, error) {
